@@ -17,6 +17,8 @@ LEVEL_NOTE = 'Trusted: clang AST; AES-NI / ARMv8 AES instruction semantics; the 
 EXPLANATION = ('AES-ROUND + AES-TTABLE (2 x 4096 contributions, 2048 words), SPEC-AESKEYS (18 constants x 2 flavours), SPEC-AESPATTERN, AES-FUSED, AES-SWITCH, AES-ASM. AES-COVER, AES-LANES (K0/K4/K2/K1), AES-HW-WRAP (K2), CFG-COVER.'
          ' AES-WIDTH, RVV-VLEN. PORT-ENDIAN (K6).')
 
+TECHNIQUE += '; byte-accurate abstract evaluation of the vector load / store wrappers on a big-endian cross parse'
+
 
 def run(ctx, R):
     F = astq.Facts(ctx, 'K0')
